@@ -403,6 +403,14 @@ pub fn run_lockstep(c: &ProgCase, cmp: Compare, ctx: &mut Ctx) -> Result<LockOut
                         ));
                     }
                 }
+                let rf: Vec<String> = p.functions.iter().map(|f| f.name.clone()).collect();
+                if rf != m.funcs_sorted() {
+                    return Err(v(
+                        "functions-differ",
+                        format!("real {} model {}", rf.len(), m.funcs_sorted().len()),
+                        format!("segment {seg}: defined functions are {:?}, the reference model has {:?}", rf, m.funcs_sorted()),
+                    ));
+                }
                 let ra: Vec<(String, Vec<usize>)> = p.arrays.iter().map(|a| (a.name.clone(), a.dimensions.clone())).collect();
                 if ra != m.arrays_sorted() {
                     return Err(v(
